@@ -318,3 +318,106 @@ def _roland_decode(c):
     )
     lp.measure("FAT_NUM_ENTRIES - len(subpath_links)")
     lp.modifies("sector_links").modifies("dirty_flags").modifies("subpath_links", ("list", "int"))
+
+
+# ================================================================================================== C07 / C02: the Roland FAT decode is EXACT
+# For the real table size (65536 entries of 16-bit words) a decode that returns normally has installed, for EVERY cluster it touched,
+# exactly the table's own word: an end-of-chain word became an end link, a plain word w became the link (next = w, not end) - whatever
+# the order of clusters, however chains share tails, wherever a chain's head lies.  Together with get_path's contract (the path follows
+# the installed links to the end marker) the sector list of a file is the sequence obtained by following the table.
+@contract("smpl_extract.roland.s7xx.fat:FatAreaAdapter._decode#exact", source_key="smpl_extract.roland.s7xx.fat:FatAreaAdapter._decode",
+          props=["C07", "C02"], proof_only=True)
+def _roland_exact(c):
+    c.self_obj(("self", "smpl_extract.roland.s7xx.fat:FatAreaAdapter", {}))
+    c.param("obj", ("rec", "FatAreaContainer", {
+        "fat_entries": ("list", "int"),
+        "metadata": ("rec", "FatAreaMetadataContainer", {"fat_id": "int", "num_unused_clusters": "int",
+                                                         "version_flag_1": "int", "version_flag_2": "int"}),
+        "stream_size": "int", "fat_data_stream": ("const", None)}))
+    c.param("context", ("const", None))
+    c.param("path", ("const", None))
+    c.value_class("SectorLink", {"next": "int", "end": "bool"})
+    c.bind["FAT_NUM_ENTRIES"] = ("int", "FAT_NUM_ENTRIES == 65536")
+    c.requires("len(obj.fat_entries) == 65536", "table-length")
+    c.requires("forall(0, len(obj.fat_entries), lambda k: 0 <= obj.fat_entries[k] and obj.fat_entries[k] < 65536)", "sixteen-bit-words")
+    c.raises("ConstructError")
+    F = "obj.fat_entries"
+    c.define("ok", ["w", "lnk"], "w == 0 or w == 1 or (w >= 0xfff8 and lnk.end) or (2 <= w and w < 0xfff7 and lnk.next == w and not lnk.end)")
+    c.define("plain", ["w"], "2 <= w and w < 0xfff7")
+    c.ensures("forall(2, 65536 - 9, lambda j: dirty_flags[j])", "every-cluster-of-the-scan-range-was-visited")
+    c.ensures(f"forall(2, 65536, lambda j: implies(dirty_flags[j], ok({F}[j], result.fat.sector_links[j])))",
+              "every-visited-cluster-carries-exactly-the-table-word")
+    c.modifies()
+    lo = c.loop(1)
+    lo.invariant("len(dirty_flags) == 65536 and len(sector_links) == 65536 and len(fat_entries) == 65536",
+                 "forall(0, 65536, lambda k: 0 <= fat_entries[k] and fat_entries[k] < 65536)",
+                 "forall(2, 2 + _i1, lambda j: dirty_flags[j])",
+                 "forall(2, 65536, lambda j: implies(dirty_flags[j], ok(fat_entries[j], sector_links[j])))")
+    lo.modifies("sector_links").modifies("dirty_flags")
+    li = c.loop(2)
+    li.invariant(
+        "len(dirty_flags) == 65536 and len(sector_links) == 65536 and len(fat_entries) == 65536",
+        "forall(0, 65536, lambda k: 0 <= fat_entries[k] and fat_entries[k] < 65536)",
+        "2 <= subpath_index and subpath_index < 65536 and 2 <= i and i < 65536 - 9",
+        "len(subpath_links) <= 65536",
+        "forall(0, len(subpath_links), lambda k: 2 <= subpath_links[k] and subpath_links[k] < 65536 and plain(fat_entries[subpath_links[k]]) and dirty_flags[subpath_links[k]])",
+        "forall(0, len(subpath_links) - 1, lambda k: fat_entries[subpath_links[k]] == subpath_links[k + 1])",
+        "ite(len(subpath_links) > 0, subpath_index == fat_entries[subpath_links[len(subpath_links) - 1]], subpath_index == i)",
+        "forall(2, i, lambda j: dirty_flags[j])",
+        "implies(len(subpath_links) > 0, subpath_links[0] == i)",
+        "forall(2, 65536, lambda j: implies(dirty_flags[j], ok(fat_entries[j], sector_links[j]) or exists(0, len(subpath_links), lambda k: subpath_links[k] == j)))",
+    )
+    li.measure("65536 - len(subpath_links)")
+    li.modifies("sector_links").modifies("dirty_flags").modifies("subpath_links", ("list", "int"))
+
+
+# ================================================================================================== C07 / C01: the AKAI SAT decode is EXACT on well-formed file chains
+# `wf` is ANY set of sectors closed under "follow the table": a member is inside the table, its word is neither free nor a directory
+# flag nor a link to itself, and unless it is the end-of-chain word the sector it names is a member too.  (The sectors of a file whose
+# chain is well-formed - in range, reaching the end marker - form such a set.)  Whatever else the table holds - other chains sharing
+# its tail, heads that are not the lowest sector, cycles and garbage elsewhere - after the decode every member carries exactly its own
+# word: the end marker as an end link, a link word w as (next = w, not end).  With get_path's contract the sector list of the file is
+# the sequence obtained by following the table from its first sector.
+@contract("smpl_extract.akai.sat:SegmentAllocationTableAdapter._decode#exact", source_key="smpl_extract.akai.sat:SegmentAllocationTableAdapter._decode",
+          props=["C07", "C01"], proof_only=True)
+def _akai_exact(c):
+    c.self_obj(("self", "smpl_extract.akai.sat:SegmentAllocationTableAdapter", {"partition_stream": ("const", None)}))
+    c.param("obj", ("list", "int"))
+    c.param("context", ("const", None))
+    c.param("path", ("const", None))
+    c.value_class("SectorLink", {"next": "int", "end": "bool"})
+    c.requires("1 <= len(obj) and len(obj) < 0x4000", "table-shorter-than-the-flag-values")          # 11386 entries in the format
+    c.requires("forall(0, len(obj), lambda k: 0 <= obj[k] and obj[k] < 65536)", "sixteen-bit-words")
+    c.define("wf", ["j"], "uf_bool('well_formed_member', j)")
+    c.define("isdir", ["w"], "w == 0x4000 or w == 0x8000")
+    c.requires("forall(0, 65536, lambda j: implies(wf(j), j < len(obj) and obj[j] != 0 and not isdir(obj[j]) and obj[j] != j and "
+               "implies(obj[j] != 0xC000, wf(obj[j]))))", "wf-is-closed-under-following-the-table")
+    c.define("ok", ["j", "w", "lnk"], "not wf(j) or (w == 0xC000 and lnk.end) or (w != 0xC000 and lnk.next == w and not lnk.end)")
+    c.ensures("forall(0, len(obj), lambda j: ok(j, obj[j], result.sector_links[j]))", "every-member-of-a-well-formed-chain-carries-exactly-its-table-word")
+    c.modifies()
+    lo = c.loop(0)
+    lo.invariant("len(dirty_flags) == size and len(sector_links) == size and size == len(block) and size < 0x4000",
+                 "forall(0, size, lambda k: 0 <= block[k] and block[k] < 65536)",
+                 "forall(0, _i0, lambda j: dirty_flags[j])",
+                 "forall(0, size, lambda j: implies(dirty_flags[j], ok(j, block[j], sector_links[j])))")
+    lo.modifies("sector_links").modifies("dirty_flags")
+    li = c.loop(1)
+    nxt = lambda e: f"ite(isdir(block[{e}]), {e} + 1, block[{e}])"
+    li.invariant(
+        "len(dirty_flags) == size and len(sector_links) == size and size == len(block) and size < 0x4000",
+        "forall(0, size, lambda k: 0 <= block[k] and block[k] < 65536)",
+        "subpath_index >= 0 and continue_flag and 0 <= i and i < size",
+        "forall(0, len(links), lambda k: 0 <= links[k] and links[k] < size and dirty_flags[links[k]])",
+        f"forall(0, len(links) - 1, lambda k: links[k + 1] == {nxt('links[k]')})",
+        f"ite(len(links) > 0, subpath_index == {nxt('links[len(links) - 1]')}, subpath_index == i)",
+        "implies(len(links) > 0, previous_sector_was_directory == isdir(block[links[len(links) - 1]]))",
+        "forall(0, len(links), lambda k: implies(wf(links[k]), wf(subpath_index)))",
+        "implies(len(links) > 0 and previous_sector_was_directory, forall(0, len(links), lambda k: not wf(links[k])))",
+        "implies(len(links) == 0 or not previous_sector_was_directory, subpath_index >= size or not dirty_flags[subpath_index] or "
+        "(len(links) > 0 and subpath_index == links[len(links) - 1]))",
+        "forall(0, i, lambda j: dirty_flags[j])",
+        "implies(len(links) > 0, links[0] == i)",
+        "forall(0, size, lambda j: implies(dirty_flags[j], ok(j, block[j], sector_links[j]) or exists(0, len(links), lambda k: links[k] == j)))",
+    )
+    li.measure("grows:dirty_flags", "size - subpath_index")
+    li.modifies("sector_links").modifies("dirty_flags").modifies("links", ("list", "int"))
